@@ -6,6 +6,7 @@ RULES = {"C02.R1", "C02.R2", "C02.R3", "C02.R4", "C02.R5", "C02.R6", "C02.R7", "
 
 
 def extra(res, facts, entries, protos):
+    _proto.state_rule(res, "C02.R10", facts, entries)
     _proto.refusal_rules(res, "C02.R8", facts)
     from .. import keys_sem
     for f in keys_sem.v3_public_key_admission(facts, "C02.S11"):
